@@ -332,9 +332,8 @@ ApplyDecl(cs, d) ==
                      With(PushMember(c1, d.name, [k |-> "field", num |-> d.num, t |-> r.t,
                                                   file |-> FileName(cs), line |-> L]), LAMBDA c2 :
                         Advance(c2))))
-      [] d.d = "closeMsg" ->
-            IF kind # "msg" THEN Reject(cs, "grammar", L, L)
-            ELSE With(Cur(cs), LAMBDA sc :
+      [] d.d \in {"closeMsg", "closeEnum"} /\ kind = "msg" ->     \* a '}' closes whatever scope is open
+            With(Cur(cs), LAMBDA sc :
                  With(FieldTypes(sc.members), LAMBDA fts :
                  With([k |-> "msg", name |-> sc.name, ext |-> sc.ext, fields |-> fts], LAMBDA ty :
                  With(NBits(ty), LAMBDA nb :
@@ -361,9 +360,8 @@ ApplyDecl(cs, d) ==
                  THEN Reject(cs, "duplicate-enum-value", L, L)
             ELSE Advance(PushMember(cs, d.name, [k |-> "efield", bits |-> d.bits,
                                                  file |-> FileName(cs), line |-> L]))
-      [] d.d = "closeEnum" ->
-            IF kind # "enum" THEN Reject(cs, "grammar", L, L)
-            ELSE With(Cur(cs), LAMBDA sc :
+      [] d.d \in {"closeMsg", "closeEnum"} /\ kind = "enum" ->
+            With(Cur(cs), LAMBDA sc :
                  With([cs EXCEPT !.scopes = Front(@)], LAMBDA c1 :
                     IF HasMember(Cur(c1).members, sc.name) THEN Reject(c1, "duplicate-name", sc.line, L)
                     ELSE IF Cur(c1).kind = "enum" THEN Reject(c1, "forbidden-in-scope", sc.line, L)
